@@ -33,8 +33,8 @@ PROPS["C02"] = pbt(
                 "sections/keys/values are known by construction; 160k (quick) / 5M (thorough) files over all 21 "
                 "delimiter x comment configurations, class floors enforced. Shows presence of violations, not absence."),
     level_note="trusts the grammar printer and the model in src/common (not the parser); C locale; tmpfs scratch",
-    quick={"cases": 160000},
-    thorough={"cases": 5000000},
+    quick={"cases": 800000},
+    thorough={"cases": 16000000},
     floors={"delim_nonblank": 0.10, "delim_blank": 0.10, "delim_mixed": 0.10, "delim_none": 0.05,
             "quoted": 0.15, "trailing_comment": 0.15, "continuation": 0.08, "duplicate_key": 0.10,
             "reopened_section": 0.01, "keyless_section": 0.05, "empty_value": 0.10, "no_final_newline": 0.08,
@@ -55,8 +55,8 @@ PROPS["C05"] = pbt(
                 "keys and values unchanged; all three variants are additionally compared with the AST the file was "
                 "printed from. 100k (quick) / 3M (thorough) file triples."),
     level_note="trusts the grammar printer/model in src/common; comments and line numbers are excluded from the comparison (they legitimately move)",
-    quick={"cases": 100000},
-    thorough={"cases": 3000000},
+    quick={"cases": 400000},
+    thorough={"cases": 8000000},
     floors={"indented_insert": 0.30, "second_comment_char": 0.30, "insert_after_entry": 0.30,
             "delim_nonblank": 0.10, "delim_blank": 0.10, "delim_mixed": 0.10, "delim_none": 0.05},
 )
@@ -75,7 +75,7 @@ PROPS["C03"] = pbt(
                 "specification (visible values, nothing invented, multiplicities, key and section order, inputs "
                 "unchanged, result independent of freed inputs)."),
     level_note="trusts the specification M1-M7 as transcription of the property; objects are built only through the public API",
-    quick={"cases": 100000, "modes": [["exh", "3", str(k), "8"] for k in range(8)] + [["empties"]]},
+    quick={"cases": 400000, "modes": [["exh", "3", str(k), "8"] for k in range(8)] + [["empties"]]},
     thorough={"cases": 3000000, "modes": [["exh", "4", str(k), "16"] for k in range(16)] + [["empties"]]},
     floors={"base_reopens_section": 0.10, "override_only_groupless": 0.10, "base_nonleading_groupless": 0.08},
 )
@@ -95,8 +95,8 @@ PROPS["C01"] = pbt(
                 "sequence of consulted files (checked through the callback) and the NOFILE cases are known by "
                 "construction. 32k (quick) / 640k (thorough) trees with class floors on every shape the quantifier names."),
     level_note="trusts the lookup model and reference merge in src/common/gen_tree.hpp; real /run and /etc only for the nothing-exists case",
-    quick={"cases": 32000},
-    thorough={"cases": 640000},
+    quick={"cases": 240000},
+    thorough={"cases": 5000000},
     floors={"masked_dropin": 0.10, "no_main": 0.15, "no_main_first_masked": 0.01, "empty_or_devnull_main": 0.08,
             "empty_main_sectioned_first_dropin": 0.01, "main_in_2_layers": 0.15, "byteorder_sensitive_names": 0.10,
             "suffix_without_dot": 0.25, "suffix_absent": 0.05, "dropins_only": 0.08, "parsing_dirs": 0.15,
@@ -117,8 +117,8 @@ PROPS["C13"] = pbt(
                 "positions of generated files, alone and as any regular member of a layered tree; the expected error "
                 "code, file and line follow from the injection. 40k (quick) / 1M (thorough) cases; message table exhaustive."),
     level_note="trusts the injector (position rules of DESIGN 5.1) and the lookup model for the tree part",
-    quick={"cases": 40000},
-    thorough={"cases": 1000000},
+    quick={"cases": 300000},
+    thorough={"cases": 6000000},
     floors={"kind_missing_bracket": 0.12, "kind_text_after_section": 0.12, "kind_empty_section_name": 0.12,
             "kind_missing_delimiter": 0.04, "not_first_line": 0.30, "tree_member": 0.20, "in_dropin": 0.10},
 )
@@ -138,8 +138,8 @@ PROPS["C06"] = pbt(
                 "rejection, the data pointer must arrive unchanged, no decoy content may be visible, and a rejection "
                 "must yield the callback-failed code and no configuration/history."),
     level_note="trusts the lookup model; a key-less object left by the two-directory entry points after a failure is accepted (see DESIGN C06)",
-    quick={"cases": 8000},
-    thorough={"cases": 200000},
+    quick={"cases": 60000},
+    thorough={"cases": 1200000},
     floors={"with_rejection": 0.50, "rejected_not_first": 0.25, "rejected_masked": 0.03,
             "ep_readDirsWithCallback": 0.12, "ep_readDirsHistoryWithCallback": 0.12, "ep_readFileWithCallback": 0.08},
 )
@@ -159,8 +159,8 @@ PROPS["C12"] = pbt(
                 "reconstruction of the result from the history with the public merge. 8k (quick) / 200k (thorough) "
                 "trees, 4-8 reads each."),
     level_note="trusts the lookup model for the expected member list; entry points are compared with each other, not with a model",
-    quick={"cases": 8000},
-    thorough={"cases": 200000},
+    quick={"cases": 60000},
+    thorough={"cases": 1200000},
     floors={"masked_member": 0.06, "null_or_empty_dir_arg": 0.05, "global_postfix_list": 0.08, "three_layers": 0.25},
 )
 
@@ -179,8 +179,8 @@ PROPS["C16"] = pbt(
                 "consulted file decides; 15k (quick) / 400k (thorough) cases, two reads each; requires root for the "
                 "foreign-owner half (evidence says so if not)."),
     level_note="trusts the lookup model for the consultation order; runs as root in this sandbox (chown/lchown)",
-    quick={"cases": 15000},
-    thorough={"cases": 400000},
+    quick={"cases": 100000},
+    thorough={"cases": 2000000},
     floors={"has_offender": 0.30, "offender_is_dropin": 0.15, "offender_is_masked": 0.004, "symlink_rule": 0.30,
             "offender_not_first": 0.08},
 )
@@ -201,8 +201,8 @@ PROPS["C17"] = pbt(
                 "and the trailing comment of each of its lines, so every field of the extended value has a known "
                 "expected value. 100k (quick) / 3M (thorough) files."),
     level_note="trusts the grammar printer; detached comment blocks may or may not be carried along (property leaves it open)",
-    quick={"cases": 100000},
-    thorough={"cases": 3000000},
+    quick={"cases": 500000},
+    thorough={"cases": 10000000},
     floors={"relative_name": 0.20, "detached_comment_block": 0.08, "trailing_comment_on_continuation": 0.03,
             "comment_block_2plus": 0.08, "continuation": 0.10},
 )
@@ -222,8 +222,8 @@ PROPS["C15"] = pbt(
                 "lists follow from the AST, option effects (last occurrence wins) are observed through probe reads. "
                 "80k (quick) / 2.5M (thorough) cases."),
     level_note="empty items (a;;b) and values other than 0/1 are undocumented either way and not generated",
-    quick={"cases": 80000},
-    thorough={"cases": 2500000},
+    quick={"cases": 400000},
+    thorough={"cases": 8000000},
     floors={"key_with_3plus_definitions|sub_join": 0.20, "reset_in_the_middle|sub_join": 0.10,
             "indented_line_with_delimiter|sub_python": 0.20, "repeated_item|sub_options": 0.20,
             "unknown_item|sub_options": 0.20},
@@ -243,8 +243,8 @@ PROPS["C07"] = pbt(
     level_text=("generated search with a round-trip oracle over the write-safe domain of DESIGN 5.4; 100k (quick) / "
                 "3M (thorough) objects, all six tag combinations, both ways of building an object."),
     level_note="domain restricted to values with an unambiguous textual form (DESIGN 5.4); section order and key-less sections are not compared",
-    quick={"cases": 100000},
-    thorough={"cases": 3000000},
+    quick={"cases": 400000},
+    thorough={"cases": 8000000},
     floors={"reopened_section_by_setters": 0.10, "groupless_after_section": 0.10, "overwritten_key": 0.15,
             "read_quoted": 0.08, "comments": 0.15, "d_space": 0.25, "d_eq": 0.25, "d_colon": 0.25, "c_hash": 0.40,
             "c_semicolon": 0.40},
@@ -263,8 +263,8 @@ PROPS["C11"] = pbt(
     level_text=("model-based testing of call histories: 40k (quick) / 1.5M (thorough) runs, ~1M / 40M commands; the "
                 "model is the ordered map of DESIGN 6.1."),
     level_note="int getter results are only compared for plain decimal literals (conversions are C09's subject)",
-    quick={"cases": 40000},
-    thorough={"cases": 1500000},
+    quick={"cases": 300000},
+    thorough={"cases": 6000000},
     floors={"grew_past_8_entries": 0.15, "overwrote_key": 0.20, "both_section_spellings": 0.20,
             "start_parsed file": 0.15, "start_merge result": 0.08},
 )
@@ -282,8 +282,8 @@ PROPS["C10"] = pbt(
     technique="property-based testing of read-only call sequences with a before/after dump invariant, rapidcheck",
     level_text="generated search over objects and query sequences with a state-invariance oracle; 60k (quick) / 2M (thorough) objects, ~20 queries each.",
     level_note="the dump is taken through the public API and the writer only",
-    quick={"cases": 60000},
-    thorough={"cases": 2000000},
+    quick={"cases": 300000},
+    thorough={"cases": 6000000},
     floors={"failing_getter": 0.20, "bool_getter_on_mixed_case": 0.15, "used_in_merge": 0.20, "key_without_value": 0.10},
 )
 
@@ -332,7 +332,7 @@ PROPS["C09"] = pbt(
                 "(thorough) literals plus all 93k / 4.2M short strings through the boolean getter (exhaustive for the "
                 "stated alphabet and length)."),
     level_note="overflowing float literals carry no claim beyond 'not success with a finite number' and are not generated; literals have nothing after them",
-    quick={"cases": 400000, "modes": [["boolexh", "3", str(k), "4"] for k in range(4)]},
+    quick={"cases": 1600000, "modes": [["boolexh", "3", str(k), "4"] for k in range(4)]},
     thorough={"cases": 12000000, "modes": [["boolexh", "4", str(k), "16"] for k in range(16)]},
     floors={"out_of_int32_range|sub_integer": 0.30, "octal|sub_integer": 0.15, "hex|sub_integer": 0.20,
             "negative_for_unsigned|sub_integer": 0.10, "bool_djb2_neighbour|sub_bool": 0.20,
@@ -382,7 +382,7 @@ PROPS["C20"] = pbt(
                 "so a leak on any failure path is attributed to the case that caused it and can be shrunk; 24k "
                 "(quick) / 1M (thorough) scenarios, each run under two heap-fill patterns."),
     level_note="allocation-failure paths are not injected; LeakSanitizer reachability semantics (memory reachable from library statics is not a leak)",
-    quick={"cases": 24000},
+    quick={"cases": 48000},
     thorough={"cases": 1000000},
     floors={"fault_in_dropin|layered_read": 0.30, "fault_callback_rejection|layered_read": 0.10, "fault_malformed_line|layered_read": 0.10,
             "fault_dangling_symlink|layered_read": 0.08, "fault_vanished_in_callback|layered_read": 0.08,
@@ -433,8 +433,8 @@ PROPS["C19"] = pbt(
     technique="property-based differential testing: tool output (subprocess on a pty) vs the library on the same generated tree, rapidcheck",
     level_text="differential oracle between econftool and the library on generated trees; 3k (quick) / 100k (thorough) trees, 1-2 tool runs each.",
     level_note="the tool is compiled from /repo/util/econftool.c with ASan/UBSan against the same library objects; keys and values avoid ' = ' so that the output parses unambiguously",
-    quick={"cases": 3200},
-    thorough={"cases": 100000},
+    quick={"cases": 9600},
+    thorough={"cases": 200000},
     floors={"groupless_only": 0.12, "groupless_and_sections": 0.15, "malformed_file": 0.08, "cmd_cat": 0.15, "cmd_syntax": 0.2},
 )
 
@@ -456,7 +456,7 @@ PROPS["C18"] = pbt(
                 "without locks; result-changing interleavings without a data race would be found only by luck. 320 "
                 "(quick) / 10k (thorough) program sets."),
     level_note="WEAK: the harness does not own the schedule; error location (documented global) is excluded from the digests",
-    quick={"cases": 3200, "max_size": 80},
-    thorough={"cases": 10000},
+    quick={"cases": 12000, "max_size": 80},
+    thorough={"cases": 200000},
     floors={"intervals_overlapped": 0.50},
 )
